@@ -16,6 +16,51 @@ Definition names_unique (md : mdesc) : Prop :=
 Definition cache_ok (md : mdesc) (c : cache) : Prop :=
   forall p, In (AParam p) (md_acc md) -> exists x, getp c (p_name p) = Some x /\ in_setb (p_dt p) x = true.
 
+(* ------------------------------------------------------------------ validated values always export *)
+(* StructOf/ArrayOf/TupleOf.export_value only refuse a value lacking a mandatory member or carrying an unknown key
+   (check_type(value, True) since 45926fd), element-wise.  No value of the declared value set is refused: no condition on
+   the datatype is needed, unbounded depth and width. *)
+Lemma entry_ok_weaken (Q1 Q2 : dtype -> pyval -> bool) ms p :
+  Forall (fun m : str * dtype => forall y, Q1 (snd m) y = true -> Q2 (snd m) y = true) ms ->
+  entry_ok Q1 ms p = true -> entry_ok Q2 ms p = true.
+Proof.
+  destruct p as [k y]. induction 1 as [|[n d1] ms H1 HF IH]; [discriminate|].
+  unfold entry_ok in *. cbn [fst snd] in *. destruct (str_eqb k n); [apply H1|exact IH].
+Qed.
+
+Lemma exportable_struct ms o c kv :
+  exportable (TStruct ms o c) (PDict kv) =
+  forallb (fun m : str * dtype => mem_str (fst m) o || mem_str (fst m) (map fst kv)) ms &&
+  forallb (entry_ok exportable ms) kv.
+Proof. reflexivity. Qed.
+
+Lemma forallb_map_fst {B} (f : str -> bool) (l : list (str * B)) :
+  forallb f (map fst l) = forallb (fun m => f (fst m)) l.
+Proof. induction l as [|x r IH]; cbn; [reflexivity|]. rewrite IH. reflexivity. Qed.
+
+Theorem in_setb_exportable : forall d x, in_setb d x = true -> exportable d x = true.
+Proof.
+  induction d using dtype_nested_ind; intros x Hx; try reflexivity.
+  - (* array *)
+    destruct x; try (cbn in Hx; discriminate). cbn [in_setb] in Hx. cbn [exportable].
+    apply andb_prop in Hx. destruct Hx as [_ Hx].
+    apply forallb_forall. intros y Hy. apply IHd. exact (proj1 (forallb_forall _ _) Hx y Hy).
+  - (* tuple *)
+    destruct x; try (cbn in Hx; discriminate). rewrite in_setb_tuple in Hx. cbn [exportable].
+    revert l Hx. induction H as [|d1 es Hd HF IH]; intros l Hx; destruct l as [|y l]; try reflexivity.
+    cbn [all2] in Hx. apply andb_prop in Hx. destruct Hx as [A B]. rewrite (Hd y A). cbn [andb]. exact (IH l B).
+  - (* struct *)
+    destruct x; try (cbn in Hx; discriminate). rewrite in_setb_struct in Hx. rewrite exportable_struct.
+    apply andb_prop in Hx. destruct Hx as [A B]. apply andb_true_intro. split.
+    + rewrite forallb_map_fst in B. exact B.
+    + apply forallb_forall. intros p Hp. apply (entry_ok_weaken in_setb exportable ms p H).
+      exact (proj1 (forallb_forall _ _) A p Hp).
+Qed.
+
+Corollary validated_exportable d : wf d -> forall v prev r,
+  prev_ok d prev -> dt_validate d v prev = Ok r -> exportable d r = true.
+Proof. intros W v prev r P H. apply in_setb_exportable. exact (validate_sound d W v prev r P H). Qed.
+
 Section Hist.
 Variable E : pyenv.
 Variable hook : nat -> pyval -> cache -> hres.
@@ -129,6 +174,93 @@ Proof.
       * destruct Ha as (_ & a & _ & Hv). destruct W as [_ W].
         exact (validate_sound ad (W cm ad Hi Hc) a PNone w' (or_introl eq_refl) Hv).
       * apply Ha.
+Qed.
+
+(* ------------------------------------------------------------------ error replies from reachable states *)
+(* the cache after the wrapper: unchanged, or the written parameter replaced by a value of its value set *)
+Lemma write_wrapper_cache_shape p v c d : wf (p_dt p) -> in_setb (p_dt p) v = true ->
+  o_cache (write_wrapper hook p v c d) = c \/
+  exists x, in_setb (p_dt p) x = true /\ o_cache (write_wrapper hook p v c d) = setp c (p_name p) x.
+Proof.
+  intros W S. pose proof (write_wrapper_cases hook p v c d) as H. cbn zeta in H.
+  destruct H as [(e & _ & ->)|[(nv & hl & e & _ & _ & ->)|(nv & hl & Hv & _ & H)]]; try (left; reflexivity).
+  destruct H as [[_ ->]|(_ & _ & _ & H)].
+  - right. exists nv. rewrite store_cache. split; [|reflexivity].
+    exact (validate_sound (p_dt p) W v PNone nv (or_introl eq_refl) Hv).
+  - destruct H as [(_ & _ & ->)|[(_ & _ & -> & _)|(x & -> & Hx)]]; try (left; reflexivity).
+    right. exists x. rewrite store_cache. split; [|reflexivity].
+    destruct Hx as [[_ ->]|(r & _ & Hr)]; [exact S|].
+    exact (validate_sound (p_dt p) W r PNone x (or_introl eq_refl) Hr).
+Qed.
+
+(* announceUpdate never fails for a value of the value set: an error out of the wrapper leaves cache and subscribers alone *)
+Lemma write_wrapper_error_clean p v c d : wf (p_dt p) -> in_setb (p_dt p) v = true ->
+  o_reply (write_wrapper hook p v c d) <> None ->
+  o_upd (write_wrapper hook p v c d) = [] /\ o_cache (write_wrapper hook p v c d) = c.
+Proof.
+  intros W S R. pose proof (write_wrapper_cases hook p v c d) as H. cbn zeta in H.
+  assert (St : forall x dl hl, in_setb (p_dt p) x = true -> o_reply (store p x c dl hl) = None).
+  { intros x dl hl Sx. destruct (store_reply p x c dl hl) as [(N & _)|(_ & _ & _ & X)]; [exact N|].
+    rewrite (in_setb_exportable _ _ Sx) in X. discriminate. }
+  destruct H as [(e & _ & Eo)|[(nv & hl & e & _ & _ & Eo)|(nv & hl & Hv & _ & [[_ Hs]|(_ & _ & _ & H)])]].
+  - rewrite Eo. split; reflexivity.
+  - rewrite Eo. split; reflexivity.
+  - exfalso. apply R. rewrite Hs. apply St. exact (validate_sound (p_dt p) W v PNone nv (or_introl eq_refl) Hv).
+  - destruct H as [(_ & U & C)|[(_ & U & C & _)|(x & Hx & Hy)]]; auto.
+    exfalso. apply R. rewrite Hx. apply St. destruct Hy as [[_ ->]|(r & _ & Hr)]; [exact S|].
+    exact (validate_sound (p_dt p) W r PNone x (or_introl eq_refl) Hr).
+Qed.
+
+(* _setParameterValue: "return pobj.export_value()" never fails from a cache_ok cache: the reply is the wrapper's result *)
+Lemma reply_always_built md c p v d : wf_md md -> cache_ok md c -> In (AParam p) (md_acc md) ->
+  in_setb (p_dt p) v = true -> reply_export p (write_wrapper hook p v c d) = write_wrapper hook p v c d.
+Proof.
+  intros [W _] C I S. set (w := write_wrapper hook p v c d).
+  destruct (o_reply w) as [cl|] eqn:R.
+  - apply reply_export_err. rewrite R. discriminate.
+  - destruct (reply_export_cases p w R) as [H|(x & G & X & _)]; [exact H|]. exfalso.
+    assert (Sx : in_setb (p_dt p) x = true).
+    { destruct (write_wrapper_cache_shape p v c d (W p I) S) as [Ec|(y & Sy & Ec)]; fold w in Ec; rewrite Ec in G.
+      - destruct (C p I) as (x0 & G0 & S0). rewrite G0 in G. injection G as <-. exact S0.
+      - rewrite getp_setp_same in G. injection G as <-. exact Sy. }
+    rewrite (in_setb_exportable _ _ Sx) in X. discriminate.
+Qed.
+
+(* ANY error reply (refusal, check chain, driver raised, read-back invalid) from a cache whose values lie in their value
+   sets: no update, cache unchanged -- no exception *)
+Theorem error_clean_ok md c rq : wf_md md -> cache_ok md c ->
+  o_reply (handle md c rq) <> None -> o_upd (handle md c rq) = [] /\ o_cache (handle md c rq) = c.
+Proof.
+  intros W C. unfold Model.handle. destruct (rq_act rq).
+  2: { intros _. apply do_clean. }
+  unfold handle_change. cbn zeta.
+  destruct (negb (str_eqb (rq_mod rq) (md_name md))); [split; reflexivity|].
+  destruct (lookup_export md _) as [[p|cm]|] eqn:Hl; try (split; reflexivity).
+  destruct (p_constant p); [split; reflexivity|]. destruct (p_readonly p); [split; reflexivity|].
+  fold (prev_of c p).
+  destruct (lookup_export_in _ _ _ Hl) as (_ & Hi & _).
+  destruct (wire E (p_dt p) (rq_data rq) (prev_of c p)) as [v|e] eqn:Hw; [|split; reflexivity].
+  pose proof (wire_sound E (p_dt p) (proj1 W p Hi) _ _ _ (prev_of_ok md c p C Hi) Hw) as Sv.
+  rewrite (reply_always_built md c p v (rq_drv rq) W C Hi Sv).
+  apply write_wrapper_error_clean; [exact (proj1 W p Hi)|exact Sv].
+Qed.
+
+(* ... in every reachable state: after any request sequence pre (any drivers, any hooks) from a cache_ok cache *)
+Theorem history_error_clean md : wf_md md -> names_unique md -> forall pre c rq, cache_ok md c ->
+  let c' := final md c pre in
+  o_reply (handle md c' rq) <> None -> o_upd (handle md c' rq) = [] /\ o_cache (handle md c' rq) = c'.
+Proof.
+  intros W U pre c rq C. cbn zeta. apply error_clean_ok; [exact W|]. apply final_ok; assumption.
+Qed.
+
+(* the same read off the list of outputs: an output with an error reply carries no update and hands its own start cache on *)
+Theorem run_error_clean md : wf_md md -> names_unique md -> forall rqs c, cache_ok md c ->
+  forall o, In o (run md c rqs) -> o_reply o <> None ->
+  o_upd o = [] /\ exists c' rq, cache_ok md c' /\ In rq rqs /\ o = handle md c' rq /\ o_cache o = c'.
+Proof.
+  intros W U rqs c C o Ho R.
+  destruct (run_reach md (cache_ok md) (fun c rq => step_ok md c rq W U) rqs c C o Ho) as (c' & rq & C' & Hr & ->).
+  destruct (error_clean_ok md c' rq W C' R) as [A B]. split; [exact A|]. exists c', rq. auto.
 Qed.
 
 End Hist.
